@@ -7,7 +7,7 @@
 From Coq Require Import List NArith Bool String.
 Import ListNotations.
 From OV Require Import Base.Bytes Base.Tree Model.Stream
-  Proofs.Stream Proofs.StreamXml Proofs.StreamJson Proofs.StreamRetain.
+  Proofs.Stream Proofs.StreamXml Proofs.StreamJson Proofs.StreamRetain Proofs.StreamSys.
 
 (* XML.  Input = ancestors (any depth, with attributes) around ANY sequence of records, where a
    record is an element that is itself on the target path and - the named guard
@@ -126,6 +126,45 @@ Theorem flat_run_rel_eq :
     flat_run_rel R rsize standalone above st rel recs = flat_run R rsize standalone above st recs.
 Proof. exact flat_run_rel_eq_proof. Qed.
 
+(* A rejected record - and any number of them in a row, however long the run - leaves NO state
+   behind in the stream readers: the reader continues exactly as if the rejected records had not
+   been in the input (same state, same Release pattern position, nothing delivered).  The model's
+   loop consumes them token by token without accumulating anything (no recursion per record). *)
+Theorem xml_rejected_restores :
+  forall (pm : list name -> bool) (pred : tree -> bool) (has_filter : bool),
+    (has_filter = false -> forall t, pred t = true) ->
+    forall recs f r rel rest,
+      Inv pm (f :: r) -> Forall (on_path_record pm (chain_of (f :: r))) recs ->
+      Forall (fun x => pred (xtree x) = false) recs ->
+      xrun pm pred has_filter false (mkS (f :: r) None SNone) rel (flat_map xevents recs ++ rest) =
+      xrun pm pred has_filter false (mkS (f :: r) None SNone) rel rest.
+Proof. exact xml_rejected_restores_proof. Qed.
+
+Theorem json_rejected_restores :
+  forall (pm : list name -> bool) (pred : tree -> bool) (has_filter : bool),
+    (has_filter = false -> forall t, pred t = true) ->
+    forall recs keyed f r rel rest,
+      mode keyed f -> Inv pm (f :: r) -> Forall (jrecord pm (chain_of (f :: r)) keyed) recs ->
+      Forall (fun j => pred (jkid keyed j) = false) recs ->
+      jrun pm pred has_filter false (mkS (f :: r) None SNone) rel (flat_map (jevents keyed) recs ++ rest) =
+      jrun pm pred has_filter false (mkS (f :: r) None SNone) rel rest.
+Proof. exact json_rejected_restores_proof. Qed.
+
+(* The xpath expressions of the transform and the process-wide expression cache.  The two facts
+   behind the model - a dynamic xpath is queried with idr.DisableXPathCache, and that flag makes
+   loadXPathExpr compile without touching the cache - are EXTRACTED from transform/parse.go and
+   idr/query.go.  Queries with computed texts (xpath_dynamic), however many and however distinct,
+   store nothing ... *)
+Theorem dynamic_xpaths_store_nothing : forall qs c,
+  Forall (fun q => fst q = true) qs -> query_all qs c = c.
+Proof. exact dynamic_xpaths_store_nothing_proof. Qed.
+
+(* ... and in general everything in the cache afterwards was there before or is the text of a
+   non-dynamic query, i.e. a constant of the schema: the cache does not grow with the records. *)
+Theorem cache_only_static : forall qs c x,
+  In x (query_all qs c) -> In x c \/ In (false, x) qs.
+Proof. exact cache_only_static_proof. Qed.
+
 (* ---- F7: with character data between the records the bound is false ------------------------------ *)
 Local Open Scope string_scope.
 Definition E17 (n : String.string) (ks : list xnode) : xnode := XE (bs n) (FXml [] []) [] ks.
@@ -204,4 +243,9 @@ Example c17_hier_runs_nonvacuous :
   map snd (flat_run hrec hsize false 2 (mkFS hrec [] false)
              [FTarget hrec (g 1) true; rej; rej; rej; FTarget hrec (g 2) true; rej; rej; FTarget hrec (g 1) true])
   = [2 + hsize (g 1); 2 + hsize (g 2); 2 + hsize (g 1)].
+Proof. vm_compute. reflexivity. Qed.
+
+Example c17_cache_nonvacuous :
+  query_all [(false, bs "a"); (true, bs "attrs/k1"); (false, bs "key"); (true, bs "attrs/k2"); (false, bs "a")] [bs "/r/n"]
+  = [bs "key"; bs "a"; bs "/r/n"].
 Proof. vm_compute. reflexivity. Qed.
